@@ -2,7 +2,7 @@
 //!
 //! Space: enumerated worlds (adversarial C names in every naming position, every type
 //! constructor in param/result/typedef positions, resources, 15..18 flat params, C mangling
-//! collisions, kebab variants) + tests/codegen corpus, minus the C backend's declared exclusions,
+//! collisions, kebab variants, one package interface in two versions) + tests/codegen corpus, minus the C backend's declared exclusions,
 //! x {default, --no-sig-flattening, --autodrop-borrows=yes, --async=all} x {utf8, utf16}.
 //! Oracle: clang --target=wasm32 -Wall -Wextra -Werror -Wc++-compat on <world>.c (flags of
 //! crates/test/src/c.rs), a user translation unit defining every exported function the header
@@ -185,6 +185,7 @@ fn main() {
     cases.extend(worlds::limit_cases());
     cases.extend(worlds::kebab_cases());
     cases.extend(worlds::c_collision_cases());
+    cases.extend(worlds::multiversion_cases());
     let n_enumerated = cases.len();
     let corpus = worlds::corpus_cases();
     let corpus_total = corpus.len();
@@ -411,6 +412,7 @@ fn main() {
             "type_families": worlds::type_families(false, false).iter().map(|f| json!({"family": f.0, "types": f.2.len()})).collect::<Vec<_>>(),
             "configurations": all_cfgs.iter().map(|c| c.name()).collect::<Vec<_>>(),
             "corpus_step": corpus_step,
+            "multiversion_pairs": worlds::VERSION_PAIRS.iter().map(|p| format!("{}|{}", p.0, p.1)).collect::<Vec<_>>(),
             "configurations_per_world": if thorough { "all 8 (per-position name worlds: default/utf8 + 2 rotating)" } else { "default/utf8 + 1 rotating" },
         },
         "ok": ok,
